@@ -970,4 +970,110 @@ theorem error_or_unknown_leader_forces_refresh (s : CState) (env env' : Env)
       simp [this]
   exact ⟨hfm, by rw [cycle_refreshed]; exact maybeUpdate_refreshed _ env' hfm⟩
 
+
+/-! ### The main loop: ticks are cycles -/
+
+/-- The cycle outputs of a run of `mainLoop` over any tick sequence are those of `runCycles` over the
+    sequence's offset ticks, each flagged with "a metadata tick arrived since the previous one" —
+    reaper ticks in between change nothing.  (Second half: the same from a state whose flag is set.) -/
+theorem loop_is_cycles (name : String) (s : CState) (ticks : List Tick) :
+    cycleOuts (runLoop name s ticks) = runCycles s (cyclesOf false ticks) ∧
+    cycleOuts (runLoop name { s with fetchMetadata := true } ticks) = runCycles s (cyclesOf true ticks) := by
+  induction ticks generalizing s with
+  | nil => simp [runLoop, cycleOuts, cyclesOf, runCycles]
+  | cons t ts ih =>
+    cases t with
+    | offset env =>
+      constructor
+      · simp only [runLoop, loopStep, cycleOuts, cyclesOf, runCycles]
+        simp [(ih _).1]
+      · simp only [runLoop, loopStep, cycleOuts, cyclesOf, runCycles]
+        simp [(ih _).1]
+    | metadata =>
+      constructor
+      · simp only [runLoop, loopStep, cycleOuts, cyclesOf]
+        exact (ih s).2
+      · simp only [runLoop, loopStep, cycleOuts, cyclesOf]
+        exact (ih s).2
+    | reaper kg sg =>
+      constructor
+      · simp only [runLoop, loopStep, cycleOuts, cyclesOf]
+        exact (ih s).1
+      · simp only [runLoop, loopStep, cycleOuts, cyclesOf]
+        exact (ih s).2
+
+theorem cycleOuts_length (name : String) (s : CState) (ticks : List Tick) :
+    (cycleOuts (runLoop name s ticks)).length = (ticks.filter fun t => match t with | .offset _ => true | _ => false).length := by
+  induction ticks generalizing s with
+  | nil => simp [runLoop, cycleOuts]
+  | cons t ts ih => cases t <;> simp [runLoop, loopStep, cycleOuts, ih]
+
+theorem mem_reap (name : String) (kg sg : Option (List String)) (g : String) :
+    g ∈ (reap name kg sg).2 ↔
+      ∃ k s, kg = some k ∧ sg = some s ∧ g ∈ s ∧ g ∉ k ∧ g ≠ "burrow-" ++ name := by
+  unfold reap
+  cases kg with
+  | none => simp
+  | some k =>
+    cases sg with
+    | none => simp
+    | some s =>
+      simp only [List.mem_filter, Bool.and_eq_true, bne_iff_ne, ne_eq, Bool.not_eq_true',
+        List.contains_eq_mem, decide_eq_false_iff_not, Option.some.injEq, exists_and_left,
+        exists_eq_left']
+      constructor
+      · rintro ⟨h1, h2, h3⟩; exact ⟨h1, h3, h2⟩
+      · rintro ⟨h1, h3, h2⟩; exact ⟨h1, h2, h3⟩
+
+theorem runLoop_append (name : String) (s : CState) (a b : List Tick) :
+    runLoop name s (a ++ b) = runLoop name s a ++ runLoop name (loopState name s a) b := by
+  induction a generalizing s with
+  | nil => simp [runLoop, loopState]
+  | cons t ts ih => simp [runLoop, loopState, ih]
+
+theorem loopState_append (name : String) (s : CState) (a b : List Tick) :
+    loopState name s (a ++ b) = loopState name (loopState name s a) b := by
+  induction a generalizing s with
+  | nil => simp [loopState]
+  | cons t ts ih => simp [loopState, ih]
+
+theorem cycleOuts_append (a b : List LoopOut) : cycleOuts (a ++ b) = cycleOuts a ++ cycleOuts b := by
+  induction a with
+  | nil => simp [cycleOuts]
+  | cons x xs ih => cases x <;> simp [cycleOuts, ih]
+
+/-- reaper ticks leave the module's own state alone -/
+theorem loopState_reapers (name : String) (s : CState) (reaps : List Tick)
+    (h : ∀ t ∈ reaps, ∃ kg sg, t = Tick.reaper kg sg) : loopState name s reaps = s := by
+  induction reaps generalizing s with
+  | nil => rfl
+  | cons t ts ih =>
+    obtain ⟨kg, sg, rfl⟩ := h _ (List.mem_cons_self)
+    simp only [loopState, loopStep]
+    exact ih s (fun t ht => h t (List.mem_cons_of_mem _ ht))
+
+theorem cycleOuts_reapers (name : String) (s : CState) (reaps : List Tick)
+    (h : ∀ t ∈ reaps, ∃ kg sg, t = Tick.reaper kg sg) : cycleOuts (runLoop name s reaps) = [] := by
+  induction reaps generalizing s with
+  | nil => rfl
+  | cons t ts ih =>
+    obtain ⟨kg, sg, rfl⟩ := h _ (List.mem_cons_self)
+    simp only [runLoop, loopStep, cycleOuts]
+    exact ih s (fun t ht => h t (List.mem_cons_of_mem _ ht))
+
+/-- A metadata tick makes the next offset tick re-read the metadata, whatever happened before it and
+    however many reaper ticks come in between. -/
+theorem metadata_tick_forces_refresh (name : String) (s : CState) (before reaps after : List Tick) (env : Env)
+    (h : ∀ t ∈ reaps, ∃ kg sg, t = Tick.reaper kg sg) :
+    ∃ o, (cycleOuts (runLoop name s (before ++ Tick.metadata :: reaps ++ Tick.offset env :: after)))[
+            (cycleOuts (runLoop name s before)).length]? = some o ∧ o.refreshed = true := by
+  have hsplit : before ++ Tick.metadata :: reaps ++ Tick.offset env :: after =
+      before ++ ([Tick.metadata] ++ (reaps ++ (Tick.offset env :: after))) := by simp
+  rw [hsplit, runLoop_append, cycleOuts_append, runLoop_append, cycleOuts_append, runLoop_append, cycleOuts_append]
+  rw [cycleOuts_reapers name _ reaps h, loopState_reapers name _ reaps h]
+  simp only [runLoop, loopStep, cycleOuts, loopState, List.nil_append]
+  refine ⟨(cycle { fetchMetadata := true, snapshot := (loopState name s before).snapshot } env).2, by simp, ?_⟩
+  rw [cycle_refreshed]
+  exact maybeUpdate_refreshed _ env rfl
+
 end Burrow.Proofs.Cluster
